@@ -234,6 +234,8 @@ def oracle(rng, tier, reasons):
     fails = []
     for c, r in zip(cs, res):
         if 'error' in r:
+            # every case is a valid request (x >= 0, t > 0, positive opacity / alpha / boundary temperature): an exception is a failure of the solver
+            fails.append({'solver': 'SuOlson', 'input': c, 'observed': r, 'why': 'the solver raised on a valid request (e.g. a negative energy density under the fourth root)'})
             continue
         bad = {k: v for k, v in r.items() if k in THRESH and not (v <= THRESH[k])}
         if bad:
